@@ -20,6 +20,11 @@ func init() {
 			"NOT decided: ordering / exactly-once delivery through the pty, TCP and crypto/ssh, that a blocked read returns when the descriptor is closed, end-to-end equivalence with an ideal pipe — operating-system and library behaviour that no static argument here bounds.",
 		Assumptions: []string{"os.File, net.Conn, crypto/ssh session pipes deliver bytes in order", "io.Reader contract: Read reports the number of bytes placed at the start of the buffer"},
 		Mutants: []Mutant{
+			{ID: "C16-child-pdeathsig", Desc: "the ssh child is started with a parent-death signal", Rule: "C16/child-lifetime",
+				Edits: []Edit{{File: "transport/system.go", Old: "\tt.c = exec.Command(t.OpenBin, t.OpenArgs...) //nolint:gosec\n\n\tvar err error\n\n\tt.fd, err = pty.StartWithSize(", New: "\tt.c = exec.Command(t.OpenBin, t.OpenArgs...) //nolint:gosec\n\tt.c.SysProcAttr = &syscall.SysProcAttr{Pdeathsig: syscall.SIGKILL}\n\n\tvar err error\n\n\tt.fd, err = pty.StartWithSize("},
+					{File: "transport/system.go", Old: "\t\"os/exec\"\n", New: "\t\"os/exec\"\n\t\"syscall\"\n"}}},
+			{ID: "C16-open-raced-against-timer", Desc: "Transport.Open runs the implementation in a goroutine and gives up after the socket timeout", Rule: "C16/wrapper",
+				Edits: []Edit{{File: "transport/transport.go", Old: "func (t *Transport) Open() error {\n\treturn t.Impl.Open(t.Args)\n}", New: "func (t *Transport) Open() error {\n\terrChan := make(chan error, 1)\n\n\tgo func() {\n\t\terrChan <- t.Impl.Open(t.Args)\n\t}()\n\n\tselect {\n\tcase err := <-errChan:\n\t\treturn err\n\tcase <-time.After(t.Args.TimeoutSocket):\n\t\treturn util.ErrTimeoutError\n\t}\n}"}}},
 			{ID: "C16-wrong-deadline-cleared", Desc: "telnet negotiation clears the write deadline instead of the read deadline it armed", Rule: "C16/deadline-cleared",
 				Edits: []Edit{{File: "transport/telnet.go", Old: "cancelDeadlineErr := t.c.SetReadDeadline(time.Time{})", New: "cancelDeadlineErr := t.c.SetWriteDeadline(time.Time{})"}}},
 			{ID: "C16-stderr-pipe-undrained", Desc: "standard transport takes the session's stderr pipe and never reads it", Rule: "C16/pipes-drained",
